@@ -104,7 +104,9 @@ def gen_case(tape, tier):
                 kw[s] = 2 + tape.choose(2, "value")
             ops.append({"op": k, "output": o, "kwargs": kw})
         elif k == "repeat":
-            ops.append({"op": "repeat"})
+            # every other repetition writes the keyword arguments in the opposite order: p(o, a=1, b=2) then p(o, b=2, a=1)
+            # are calls with equal arguments (decided by the position, no draw: existing cases keep their tapes)
+            ops.append({"op": "repeat", "reversed": True} if len(ops) % 2 else {"op": "repeat"})
         elif k in ("update_defaults", "update_bound"):
             fd = tape.pick(w["functions"], "fn")
             p = tape.pick(fd["params"], "param")
@@ -390,6 +392,9 @@ def run_A(case, tape, clear_on_mutation=False):
                 kind = op2["op"]
                 if kind in ("call", "run"):
                     kw = {k: _val(k, v, array_roots) for k, v in op2["kwargs"].items()}
+                    if repeated and op.get("reversed") and len(kw) > 1:
+                        kw = dict(reversed(list(kw.items())))
+                        probes["repeat_with_other_keyword_order"] = probes.get("repeat_with_other_keyword_order", 0) + 1
                     supplies = any(k in prod for k in kw)
 
                     def invoke(p):
